@@ -148,7 +148,7 @@ class Bench:
             kw["access_log_format"] = access_format
         self.kind = kind
         self.cfg = gparse.make_cfg(**kw)
-        self.log = Logger(self.cfg)
+        self.log = self.cfg.logger_class(self.cfg)       # glogging.Logger, or its statsd subclass when statsd_host is set
         self.acc = Capture()
         self.err = Capture()
         self.log.access_log.handlers = [self.acc]
